@@ -85,6 +85,25 @@ func (t *ProcessorTask) Close(ctx context.Context) error {
 	return t.processor.Teardown(ctx)
 }
 
+// releaseUnopenedProcessors tears down the processors among tasks that will
+// never be opened (the tasks behind one that failed to open, the tasks of a
+// worker that is dropped before it was opened). A processor's plugin is
+// dispensed and its instance reserved as running when the task is built, not
+// when it is opened, so it has to be released nevertheless - otherwise Update,
+// Delete and the next start are refused with "processor already running".
+// Connector tasks hold nothing before Open.
+func releaseUnopenedProcessors(ctx context.Context, tasks []Task) {
+	for _, task := range tasks {
+		pt, ok := task.(*ProcessorTask)
+		if !ok {
+			continue
+		}
+		if err := pt.Close(ctx); err != nil {
+			pt.logger.Err(ctx, err).Msg("could not tear down processor that was never opened")
+		}
+	}
+}
+
 // Do processes a batch of records using the processor plugin. It returns
 // an error if the processor fails to process the records, or if the
 // processor returns an invalid number of records.
